@@ -316,12 +316,8 @@ def step (cfg : Cfg) (w : World) (st : State) (r : Req) : World × State × Out 
   | .rmdir raw =>
     let p := cleanRequest raw
     if !cfg.allowWrite then (w, st, ⟨rmdirResult false, false⟩) else
+    if p.isEmpty then (w, st, ⟨rmdirResult false, false⟩) else     -- the root itself is never removed
     if (statInfo w p).any (fun i => !i.isDir) then (w, st, ⟨rmdirResult false, false⟩) else
-    if p.isEmpty then
-      -- the root itself: os.Remove succeeds when it is empty
-      if w.rootGone || !w.entries.isEmpty then (w, st, ⟨rmdirResult false, false⟩)
-      else ({ w with rootGone := true }, st, ⟨rmdirResult true, false⟩)
-    else
     if !p.all nameOk then (w, st, ⟨rmdirResult false, false⟩) else
     match w.stat p.dropLast with
     | some (pq, .dir _) =>
